@@ -227,7 +227,7 @@ class ModelRunner:
             rd, _, _ = select.select([self.p.stdout], [], [], self.timeout)
             if not rd:
                 self.p.kill()
-                if cmd.startswith("run"):
+                if cmd.startswith("run") or cmd == "pcapng":
                     self.skipped += 1
                     self.start()
                     return Skipped("SKIPPED")
